@@ -8,10 +8,10 @@ pub fn prop() -> Prop {
     Prop {
         id: "C11",
         level: "model_checking",
-        rule: "all sequences S of <=5 (thorough <=7) values over a 6-value universe (three records with per-record regex patterns incl. an invalid one, a record without the selected members, a scalar, an array with a nested cell longer than 64 bytes; two records share a pattern and a split element but differ in what a macro reads besides `.`) — i.e. every concatenation A.B with |A|+|B| <= 5 (thorough 7), every permutation and every duplication — x 29 pipelines made of --set, --split-by, --filter, --select (regex functions with cache sizes 0,1,2; variables; macros; previously selected names; ^ after split; --only-objects-and-arrays) x 5 output styles (one-line, consise, pretty, text, csv) plus text with --headers; and sequences of 64, 257 and 1031 values; sequences of <=4 values mixing small records with rows of 1 KiB, 9 KiB and 20 KiB; non-trivial = S holds two values with different rows; distinct by construction; a third of the sequences of <=3 values is also delivered as files, one value per file, a repeated value being the same file named again",
+        rule: "all sequences S of <=5 (thorough <=7) values over a 6-value universe (three records with per-record regex patterns incl. an invalid one, a record without the selected members, a scalar, an array with a nested cell longer than 64 bytes; two records share a pattern and a split element but differ in what a macro reads besides `.`) — i.e. every concatenation A.B with |A|+|B| <= 5 (thorough 7), every permutation and every duplication — x 29 pipelines made of --set, --split-by, --filter, --select (regex functions with cache sizes 0,1,2; variables; macros; previously selected names; ^ after split; --only-objects-and-arrays) x 6 output styles (one-line, consise, pretty, text, csv, one-line with --utf8-strings) plus text with --headers; a selection text taken from the record (valid, unparsable, valid, empty; directly and through a variable or macro bound per record); member names that are not ASCII reaching the row printer, the nested-cell printer and stringify in a record-dependent order; and sequences of 64, 257 and 1031 values; sequences of <=4 values mixing small records with rows of 1 KiB, 9 KiB and 20 KiB; every pipeline and style also on the real executable, every run a process of its own (singles, all pairs, all triples A B A; a fresh process must print what the used worker process prints); non-trivial = S holds two values with different rows; distinct by construction; a third of the sequences of <=3 values is also delivered as files, one value per file, a repeated value being the same file named again",
         explanation: "metamorphic: out(S) must be the header (out of the empty input) followed by the bodies of out([s]) for each s in S in order; this single relation over all S implies out(A.B)=out(A).out(B), permutation and duplication",
         assumptions: COMMON_ASSUMPTIONS.to_vec(),
-        guards: vec!["values-delivered-as-files", "same-file-named-twice", "row-beyond-every-buffer", "hundreds-of-records", "two-patterns-through-a-one-entry-cache", "header-printed-once", "split-produced-rows", "value-dropped-by-filter", "repeated-value"],
+        guards: vec!["every-run-a-process-of-its-own", "values-delivered-as-files", "same-file-named-twice", "row-beyond-every-buffer", "hundreds-of-records", "two-patterns-through-a-one-entry-cache", "header-printed-once", "split-produced-rows", "value-dropped-by-filter", "repeated-value"],
         budget_s: (100, 2400),
         single_worker: false,
         run,
@@ -20,10 +20,10 @@ pub fn prop() -> Prop {
 }
 
 const U: [&str; 6] = [
-    "{\"n\":1,\"s\":\"aab\",\"p\":\"^a+\",\"l\":[1,2],\"f\":\"%H:%M\",\"o\":{\"x\":1,\"y\":[2]}}",
-    "{\"n\":2,\"s\":\"bba\",\"p\":\"^a+\",\"l\":[2,3],\"f\":\"%Q\",\"o\":{\"y\":[2],\"x\":1}}",
-    "{\"n\":1.5,\"s\":\"aab\",\"p\":\"(b)$\",\"l\":[],\"f\":\"%s|%\"}",
-    "{\"s\":\"xyz\",\"p\":\"[\",\"l\":[2,2]}",
+    "{\"n\":1,\"s\":\"aab\",\"p\":\"^a+\",\"l\":[1,2],\"f\":\"%H:%M\",\"o\":{\"x\":1,\"y\":[2],\"\u{e9}\u{7f}\":0},\"e\":\"(len .l)\"}",
+    "{\"n\":2,\"s\":\"bba\",\"p\":\"^a+\",\"l\":[2,3],\"f\":\"%Q\",\"o\":{\"y\":[2],\"\u{e9}\u{7f}\":0,\"x\":1},\"q\":{\"\u{e9}\u{7f}\":[1]},\"e\":\"(+ .n\"}",
+    "{\"n\":1.5,\"s\":\"aab\",\"p\":\"(b)$\",\"l\":[],\"f\":\"%s|%\",\"e\":\".s\"}",
+    "{\"s\":\"xyz\",\"p\":\"[\",\"l\":[2,2],\"e\":\"\"}",
     "5",
     "[\"xxxxxxxxxxxxxxxxxxxxxxxxxxxxxxxxxxxxxxxxxxxxxxxxxxxxxxxxxxxxxxxxxxxxxx\",{\"k\":[1,2]}]",
 ];
@@ -79,6 +79,14 @@ fn pipelines() -> Vec<Pl> {
         Pl { name: "set-scope-with-empty-body-over-preset", args: vec!["--set=k=\"n\"", "--select=(get . :k)=w", "--select=(set \"k\" \"s\" .zz)=v", "--select=(set \"k\" \"p\" (get . :k))=u"], selections: true, cache1: false },
         Pl { name: "define-scope-with-empty-body-over-preset", args: vec!["--set=@m=.n", "--select=@m=w", "--select=(define \"m\" .s .zz)=v", "--select=(define \"m\" .p @m)=u"], selections: true, cache1: false },
         Pl { name: "set-scope-with-empty-body-no-preset", args: vec!["--select=(default :k \"unbound\")=w", "--select=(set \"k\" .n .zz)=v", "--select=(default (@ \"m\") \"unbound\")=x", "--select=(define \"m\" .n .zz)=y"], selections: true, cache1: false },
+        // a selection text taken from the record: valid, unparsable, valid again, empty - directly and through a variable
+        // bound per record; the same text decides a filter and a split
+        Pl { name: "per-record-selection-text", args: vec!["--select=(parse_selection .e)=pe", "--select=(set \"t\" .e (parse_selection :t))=pv", "--select=(define \"t\" .e (parse_selection @t))=pm"], selections: true, cache1: false },
+        Pl { name: "per-record-selection-text-in-filter", args: vec!["--filter=(number? (parse_selection .e))", "--select=.n=n"], selections: true, cache1: false },
+        Pl { name: "per-record-selection-text-in-split", args: vec!["--split-by=(push [] (parse_selection .e) .n)", "--select=.=item"], selections: true, cache1: false },
+        // member names that are not ASCII reach the row printer, the nested-cell printer and stringify in an order that
+        // depends on the record
+        Pl { name: "non-ascii-member-names-through-several-printers", args: vec!["--select=(stringify .q)=sq", "--select=.o=o", "--select=.q=q"], selections: true, cache1: false },
         Pl { name: "set-scope-in-filter-and-split", args: vec!["--set=k=\"l\"", "--set=q=1", "--split-by=(default (set \"k\" \"zz\" .nothing) (get . :k))", "--filter=(default (set \"q\" 2 ^.zz) (>= . :q))", "--select=(+ . :q)=e"], selections: true, cache1: false },
     ];
     for (i, cs) in ["0", "1", "2"].iter().enumerate() {
@@ -94,14 +102,20 @@ fn pipelines() -> Vec<Pl> {
     v
 }
 
-const STYLES: [(&str, &[&str]); 6] = [
+const STYLES: [(&str, &[&str]); 7] = [
     ("one-line", &["--output-style=json", "--style=one-line"]),
     ("consise", &["--output-style=json", "--style=consise"]),
     ("pretty", &["--output-style=json", "--style=pretty"]),
     ("text", &["--output-style=text"]),
     ("text-headers", &["--output-style=text", "--headers"]),
     ("csv", &["--output-style=csv"]),
+    ("one-line-utf8", &["--output-style=json", "--style=one-line", "--utf8-strings"]),
 ];
+
+thread_local! {
+    /// the real executable (built by ./check), when there is one
+    static BIN: Option<String> = std::env::var("JAWK_BIN").ok().filter(|b| std::path::Path::new(b).exists());
+}
 
 fn input_of(idx: &[usize]) -> Vec<u8> {
     let mut s = String::new();
@@ -227,6 +241,64 @@ fn run(ctx: &mut Ctx) {
                     return;
                 }
             }
+            // the same relation on the real executable, every run a process of its own: state that outlives a run inside
+            // one process (a static, a thread-local) looks like no state at all to the in-process runs above, which all
+            // share the worker's process. Singles, all pairs and all triples A B A; the single runs must also print
+            // what the in-process single runs print (a fresh process against a warm one).
+            if let Some(bin) = BIN.with(|b| b.clone()) {
+                use crate::drive::{run_child, OutMode};
+                let mut psingles: Vec<Vec<u8>> = Vec::new();
+                let mut ok = true;
+                for u in 0..U.len() {
+                    match run_child(&bin, &args, &input_of(&[u]), OutMode::Pipe) {
+                        Ok(c) if c.code == Some(0) && c.stdout.starts_with(&header.stdout) => {
+                            ctx.rep.evaluations += 1;
+                            if c.stdout != singles[u].stdout {
+                                let case = Case::owned(args.clone(), input_of(&[u]));
+                                ctx.violation("a-fresh-process-prints-something-else-than-the-same-run-in-a-used-process", &sig, &[case], format!("{:?}", String::from_utf8_lossy(&c.stdout)), format!("in-process: {:?}", singles[u].out_str()));
+                            }
+                            psingles.push(c.stdout);
+                        }
+                        Ok(c) => {
+                            let case = Case::owned(args.clone(), input_of(&[u]));
+                            ctx.violation("run-failed", &format!("{sig} (executable)"), &[case], "exit 0".into(), format!("exit={:?} stderr={:?}", c.code, String::from_utf8_lossy(&c.stderr)));
+                            ok = false;
+                            break;
+                        }
+                        Err(e) => {
+                            ctx.machinery_error(format!("cannot run child: {e}"));
+                            ok = false;
+                            break;
+                        }
+                    }
+                }
+                if ok {
+                    let mut todo: Vec<Vec<usize>> = Vec::new();
+                    crate::explore::seqs_exact(U.len(), 2, |i| todo.push(i.to_vec()));
+                    for a in 0..U.len() {
+                        for b in 0..U.len() {
+                            if a != b {
+                                todo.push(vec![a, b, a]);
+                            }
+                        }
+                    }
+                    for idx in todo {
+                        let Ok(c) = run_child(&bin, &args, &input_of(&idx), OutMode::Pipe) else { continue };
+                        ctx.rep.evaluations += 1;
+                        ctx.case_done();
+                        ctx.trace_validated();
+                        ctx.guard("every-run-a-process-of-its-own");
+                        let mut expected = header.stdout.clone();
+                        for i in &idx {
+                            expected.extend_from_slice(&psingles[*i][hl..]);
+                        }
+                        if c.code != Some(0) || c.stdout != expected {
+                            let case = Case::owned(args.clone(), input_of(&idx));
+                            ctx.violation("output-of-a-sequence-is-not-the-concatenation-of-the-outputs-of-its-values", &format!("{sig} every run a process of its own"), &[case], format!("{:?}", String::from_utf8_lossy(&expected)), format!("exit={:?} stdout={:?}", c.code, String::from_utf8_lossy(&c.stdout)));
+                        }
+                    }
+                }
+            }
             // size thresholds: rows far beyond any output buffer between small ones (a writer that batches small
             // rows but passes big ones through must not reorder them)
             {
@@ -291,5 +363,5 @@ fn run(ctx: &mut Ctx) {
             }
         }
     }
-    ctx.level_done(&format!("all-sequences-of-<={maxlen}-values-x-29-pipelines-x-6-styles"));
+    ctx.level_done(&format!("all-sequences-of-<={maxlen}-values-x-{}-pipelines-x-{}-styles", pls.len(), STYLES.len()));
 }
